@@ -49,6 +49,7 @@ class State:
         self.guards: list = []
         self.pending: list = []     # (cond, excname) raised by calls inside the current statement
         self.trace: list = []       # branch decisions, for path naming
+        self.epoch = 0              # bumped at every heap write (keys opaque ghost functions to a heap version)
 
     def fork(self):
         s = State()
@@ -58,6 +59,7 @@ class State:
         s.guards = list(self.guards)
         s.pending = list(self.pending)
         s.trace = list(self.trace)
+        s.epoch = self.epoch
         return s
 
     def hyps(self):
@@ -80,6 +82,7 @@ class Registry:
         self.fields: dict[str, T.Ty] = {}      # obj.<field>
         self.attrs: dict[str, T.Ty] = {}       # obj.get("<attr>", scIdx)
         self.ghost: dict[str, tuple] = {}      # name -> (params, expr-src)
+        self.opaque: dict[str, object] = {}    # opaque ghost name -> result type
         self.contracts: dict[str, "Contract"] = {}
         self.classes: dict[str, dict] = {}
 
@@ -132,6 +135,7 @@ class Contract:
         self.assumes = kw.pop("assumes", [])
         self.opaque_calendar = kw.pop("opaque_calendar", False)
         self.relational = kw.pop("relational", [])     # [(label, shared-params, requires-src, ensures-src)]
+        self.reveal = kw.pop("reveal", [])             # opaque ghost functions expanded in this contract
         if kw:
             raise TypeError(f"unknown contract keys {list(kw)}")
         self.requires = [(f"r{i}", c) if isinstance(c, str) else c for i, c in enumerate(self.requires)]
@@ -175,7 +179,11 @@ class HeapOps:
             terms.append(z3.Select(self.arr(st, f"{name}#{k}", [Obj], s), obj))
         return V(ty, terms)
 
-    def set_field(self, st, obj, name, ty, val: V):
+    def set_field(self, st_, *a, **k):
+        self.ex.bump(st_)
+        return self._set_field(st_, *a, **k)
+
+    def _set_field(self, st, obj, name, ty, val: V):
         val = T.coerce(val, ty)
         for k, s in enumerate(ty.sorts()):
             key = f"{name}#{k}"
@@ -189,7 +197,11 @@ class HeapOps:
             terms.append(z3.Select(z3.Select(a, obj), sc))
         return V(ty, terms)
 
-    def set_attr(self, st, obj, name, sc, ty, val):
+    def set_attr(self, st_, *a, **k):
+        self.ex.bump(st_)
+        return self._set_attr(st_, *a, **k)
+
+    def _set_attr(self, st, obj, name, sc, ty, val):
         val = T.coerce(val, ty)
         for k, s in enumerate(ty.sorts()):
             key = f"@{name}#{k}"
@@ -201,7 +213,11 @@ class HeapOps:
         key = lty.k_len() if lty is not None else "$len@"
         return z3.Select(self.arr(st, key, [Obj], z3.IntSort()), r)
 
-    def list_set_len(self, st, r, n, lty=None):
+    def list_set_len(self, st_, *a, **k):
+        self.ex.bump(st_)
+        return self._list_set_len(st_, *a, **k)
+
+    def _list_set_len(self, st, r, n, lty=None):
         key = lty.k_len() if lty is not None else "$len@"
         st.heap[key] = z3.Store(self.arr(st, key, [Obj], z3.IntSort()), r, n)
 
@@ -212,7 +228,11 @@ class HeapOps:
             terms.append(z3.Select(z3.Select(a, r), i))
         return V(lty.t, terms)
 
-    def list_put(self, st, lty: T.List, r, i, val: V):
+    def list_put(self, st_, *a, **k):
+        self.ex.bump(st_)
+        return self._list_put(st_, *a, **k)
+
+    def _list_put(self, st, lty: T.List, r, i, val: V):
         val = T.coerce(val, lty.t)
         old = self.list_get(st, lty, r, i)
         for k, s in enumerate(lty.t.sorts()):
@@ -224,7 +244,11 @@ class HeapOps:
     def list_sum(self, st, lty, r, k):
         return z3.Select(self.arr(st, lty.k_sum(k), [Obj], z3.RealSort()), r)
 
-    def list_set_sum(self, st, lty, r, k, v):
+    def list_set_sum(self, st_, *a, **k):
+        self.ex.bump(st_)
+        return self._list_set_sum(st_, *a, **k)
+
+    def _list_set_sum(self, st, lty, r, k, v):
         key = lty.k_sum(k)
         st.heap[key] = z3.Store(self.arr(st, key, [Obj], z3.RealSort()), r, v)
 
@@ -246,7 +270,11 @@ class HeapOps:
             terms.append(z3.Select(z3.Select(a, r), k))
         return V(dty.v, terms)
 
-    def dict_put(self, st, dty, r, k, val):
+    def dict_put(self, st_, *a, **k):
+        self.ex.bump(st_)
+        return self._dict_put(st_, *a, **k)
+
+    def _dict_put(self, st, dty, r, k, val):
         val = T.coerce(val, dty.v)
         key = dty.k_dom()
         a = self.arr(st, key, [Obj, self._ks(dty)], z3.BoolSort())
@@ -256,7 +284,11 @@ class HeapOps:
             a = self.arr(st, key, [Obj, self._ks(dty)], s)
             st.heap[key] = z3.Store(a, r, z3.Store(z3.Select(a, r), k, val.terms[j]))
 
-    def dict_clear_new(self, st, dty, r):
+    def dict_clear_new(self, st_, *a, **k):
+        self.ex.bump(st_)
+        return self._dict_clear_new(st_, *a, **k)
+
+    def _dict_clear_new(self, st, dty, r):
         key = dty.k_dom()
         a = self.arr(st, key, [Obj, self._ks(dty)], z3.BoolSort())
         st.heap[key] = z3.Store(a, r, z3.K(self._ks(dty), z3.BoolVal(False)))
@@ -357,6 +389,11 @@ def alloc_axioms(exprs, param_refs=()):
 
 class Exec:
     """Symbolic execution of one function under one contract."""
+    _epoch_ctr = [0]
+
+    def bump(self, st):
+        Exec._epoch_ctr[0] += 1
+        st.epoch = Exec._epoch_ctr[0]
 
     def __init__(self, c: Contract, fdef: ast.FunctionDef, source_file: str, ctypes=None):
         self.c = c
@@ -932,7 +969,8 @@ class Exec:
             else:
                 self.oblige(st, "safety", f"index@{getattr(node, 'lineno', 0)}", z3.And(ix >= -n, ix < n), node,
                             "IndexError")
-        eff = z3.If(ix < 0, ix + n, ix) if not (i.cint and self.c.cython) else ix
+        # contract expressions index from 0 (no Python wrap-around): keeps quantifier triggers simple
+        eff = z3.If(ix < 0, ix + n, ix) if not ((i.cint and self.c.cython) or self.spec) else ix
         eff = z3.simplify(eff)
         if write:
             return eff
@@ -1257,6 +1295,9 @@ class Exec:
                 return None
         m = st0.fork()
         m.trace = list(st0.trace) + ["m"]
+        if sa.epoch != st0.epoch or sb.epoch != st0.epoch:
+            Exec._epoch_ctr[0] += 1
+            m.epoch = Exec._epoch_ctr[0]
         extra_a = [p for p in sa.pc[n0:] if not p.eq(c)]
         extra_b = [p for p in sb.pc[n0:] if not p.eq(z3.Not(c))]
         for p in extra_a:
